@@ -263,6 +263,27 @@ def run(prop, tier, seed):
                      rng.choice([120, 250]), rng.choice([120, 180]), rng.choice(["int", "zero", "neg", "big", "str"])))
     chk.run_jobs(job_random, jobs, "rand", chunk=1500)
     repo_test_traces(chk)
+    if prop == "C08":
+        # "all snapshot queries of C02 follow that presence": the C02 query battery on accumulative states (clauses C02_*
+        # of spec/Queries.tla, judged against the observed presence; counted under C08 here)
+        from . import check_c02
+        chk.prefixes = ("C08", "C02_")
+        bjobs = []
+        for cfg in CFGS[tier]:
+            states, alphabet = mc_states(chk, cfg, ["InvRefines"])
+            states = [s for s in states if not s["rem"] and s["hist"]]
+            nmax = max([n for c in alphabet for n in drivers.call_nodes(c)] or [2])
+            if tier == "quick":
+                states = rng.sample(states, min(len(states), 60))
+            for i, st in enumerate(states):
+                bjobs.append((rng.randrange(1 << 30), st["dir"], False, st["hist"], LABS[(i + seed) % len(LABS)],
+                              list(range(1, nmax + 1)), drivers.grid_of(alphabet)))
+        for _ in range(40 if tier == "quick" else 800):
+            calls = drivers.rand_history(rng, rng.choice([2, 3, 4, 5]), rng.choice([3, 5, 8]), rng.randint(2, 14))
+            bjobs.append((rng.randrange(1 << 30), rng.random() < 0.5, False, calls, rng.choice(LABS), drivers.known_of(calls),
+                          drivers.grid_of(calls)))
+        chk.run_jobs(check_c02.job_battery, bjobs, "acc-bat", chunk=320)
+        chk.extra["accumulative_query_batteries"] = len(bjobs)
     if tier == "thorough":
         sim_stage(chk, rng, modes_wanted, 25)
         if prop in ("C01", "C03"):
